@@ -361,7 +361,9 @@ fn pop_family(addrs: &mut VecDeque<IpAddr>, next_is_v6: &mut bool) -> Option<IpA
         .position(|ip| ip.is_ipv6() == *next_is_v6)
         .unwrap_or(0);
     let addr = addrs.remove(idx)?;
-    *next_is_v6 = !*next_is_v6;
+    // Flip relative to the family actually taken, so that a fallback to the
+    // other family does not make the next attempt skip a waiting address.
+    *next_is_v6 = !addr.is_ipv6();
     Some(addr)
 }
 
